@@ -24,7 +24,20 @@ type scriptMeter struct {
 	key string
 }
 
-func (m *scriptMeter) Rating() float64           { return m.w.rating[m.key] }
+// Rating: with jitter on, successive reads of one meter differ in the seventh
+// digit (a live meter is not frozen while the rebalancer looks at it); the
+// relative jitter never changes which side of the split a clear-cut rating is on.
+func (m *scriptMeter) Rating() float64 {
+	v := m.w.rating[m.key]
+	if m.w.jitter {
+		m.w.reads++
+		v *= 1 + float64(m.w.reads%3-1)*1e-6
+		if v > 1 {
+			v = 1
+		}
+	}
+	return v
+}
 func (m *scriptMeter) Record(int, time.Duration) { m.w.recorded++ }
 func (m *scriptMeter) IsReady() bool             { return !m.w.notReady[m.key] }
 
@@ -34,6 +47,8 @@ type c10World struct {
 	rb       *roundrobin.Rebalancer
 	backoff  time.Duration
 	scripted bool
+	jitter   bool // scripted meters: successive reads differ slightly
+	reads    int
 	model    pool
 	rating   map[string]float64
 	notReady map[string]bool
@@ -324,6 +339,7 @@ func c10prop(r *simkit.Run) {
 	defer clock.Unfreeze()
 	w := &c10World{r: r, rating: map[string]float64{}, notReady: map[string]bool{}, errRate: map[string]int{}, lastAdjust: -1, outlierSince: -1, firstMiss: -1, start: clock.Now().UTC()}
 	w.scripted = rapid.IntRange(0, 3).Draw(rt, "meter") != 0
+	w.jitter = w.scripted && rapid.IntRange(0, 2).Draw(rt, "rating-jitter") == 0
 	switch rapid.IntRange(0, 3).Draw(rt, "backoff-scale") {
 	case 0:
 		w.backoff = time.Duration(rapid.IntRange(1, 100).Draw(rt, "backoff-ms")) * time.Millisecond
